@@ -80,8 +80,11 @@ class Daemon:
     def reload(self, body):
         self.write_conf(body)
         self.p.send_signal(signal.SIGUSR1)
-        time.sleep(0.12)
-        return self.send(b"s")
+        # the signal is pending before the command below is written, so its handler has run by the
+        # time the daemon reads the command; the reload itself happens in the event loop, at the
+        # latest in the iteration that answers the first command - the second answer comes after it
+        time.sleep(0.05)
+        return self.send(b"s") and self.send(b"s")
 
     def files(self):
         out = ["files"]
